@@ -105,6 +105,7 @@ type interpreter struct {
 	panicActive  bool
 	depthCalls   int
 	frozenLocal  map[*value]struct{}
+	frozenMaps   map[*omap]struct{}
 	overrides    map[string]value
 	wraps        map[string]bool
 }
@@ -412,6 +413,7 @@ func visitInstr(fr *frame, instr ssa.Instruction) continuation {
 		if m == nil {
 			fr.i.throwRuntime("assignment to entry in nil map")
 		}
+		fr.i.noteMapWrite(m)
 		m.insert(fr.i, fr.get(instr.Key), fr.get(instr.Value))
 
 	case *ssa.TypeAssert:
